@@ -487,6 +487,29 @@ pub fn gen_float_pair(rng: &mut Rng, f32_run: bool) -> Option<PairCase> {
     Some(PairCase { s1, s2, subj1, subj2: !subj1, in_out1: rng.below(2) == 0, in_out2: rng.below(2) == 0, f32_run })
 }
 
+/// exactly parallel segments a tiny distance apart with overlapping bounding boxes (disjoint, but any absolute
+/// tolerance in the collinearity test would call them overlapping); all coordinates dyadic so that the shift is exact
+pub fn gen_parallel_pair(rng: &mut Rng) -> PairCase {
+    let q = 1.0 / (1u64 << 20) as f64;
+    let scale = [1.0, 1024.0, 1.0 / 1024.0][rng.below(3) as usize];
+    let g = |rng: &mut Rng| (rng.below(1 << 20) as f64) * q * scale;
+    let a = (g(rng), g(rng));
+    let mut d = (g(rng) - 0.5 * scale, g(rng) - 0.5 * scale);
+    if d == (0.0, 0.0) {
+        d = (q * scale, 0.0);
+    }
+    // keep 8 low bits free so that quarter multiples and the shift stay exact
+    let d = ((d.0 / (q * scale * 256.0)).round() * q * scale * 256.0, (d.1 / (q * scale * 256.0)).round() * q * scale * 256.0);
+    let d = if d == (0.0, 0.0) { (q * scale * 256.0, 0.0) } else { d };
+    let s1 = (a, (a.0 + d.0, a.1 + d.1));
+    let delta = scale * [2.0f64.powi(-30), 2.0f64.powi(-40), 2.0f64.powi(-25)][rng.below(3) as usize];
+    let off = if d.0.abs() >= d.1.abs() { (0.0, delta) } else { (delta, 0.0) };
+    let (t1, t2) = ([0.0, 0.25, 0.5][rng.below(3) as usize], [0.75, 1.0, 1.25][rng.below(3) as usize]);
+    let s2 = ((a.0 + t1 * d.0 + off.0, a.1 + t1 * d.1 + off.1), (a.0 + t2 * d.0 + off.0, a.1 + t2 * d.1 + off.1));
+    let subj1 = rng.below(2) == 0;
+    PairCase { s1, s2, subj1, subj2: !subj1, in_out1: rng.below(2) == 0, in_out2: rng.below(2) == 0, f32_run: false }
+}
+
 /// ulp-slope constructions around the known one-ulp bump (N2): a steep segment whose x-extent is one ulp,
 /// crossed by a long flat one below its left endpoint
 pub fn gen_n2_pair(rng: &mut Rng, f32_run: bool) -> PairCase {
